@@ -191,24 +191,26 @@ static int prepare_acf_packet(uint8_t* acf_pdu,
                       (uint64_t)now.tv_nsec + (uint64_t)(now.tv_sec * 1e9));
     Avtp_Can_SetField(pdu, AVTP_CAN_FIELD_MTV, 1U);
 
-    // Set required CAN Flags
-    can_id = (can_variant == AVTP_CAN_FD) ? frame.fd.can_id : frame.cc.can_id;
-    Avtp_Can_SetField(pdu, AVTP_CAN_FIELD_RTR, can_id & CAN_RTR_FLAG);
-    Avtp_Can_SetField(pdu, AVTP_CAN_FIELD_EFF, can_id & CAN_EFF_FLAG);
-
-    if (can_variant == AVTP_CAN_FD) {
-        Avtp_Can_SetField(pdu, AVTP_CAN_FIELD_BRS, frame.fd.flags & CANFD_BRS);
-        Avtp_Can_SetField(pdu, AVTP_CAN_FIELD_FDF, frame.fd.flags & CANFD_FDF);
-        Avtp_Can_SetField(pdu, AVTP_CAN_FIELD_ESI, frame.fd.flags & CANFD_ESI);
-    }
-
     // Copy payload to ACF CAN PDU
+    can_id = (can_variant == AVTP_CAN_FD) ? frame.fd.can_id : frame.cc.can_id;
     if(can_variant == AVTP_CAN_FD)
         Avtp_Can_CreateAcfMessage(pdu, frame.fd.can_id & CAN_EFF_MASK, frame.fd.data,
                                          frame.fd.len, can_variant);
     else
         Avtp_Can_CreateAcfMessage(pdu, frame.cc.can_id & CAN_EFF_MASK, frame.cc.data,
                                          frame.cc.len, can_variant);
+
+    // Set required CAN Flags (single-bit fields: normalize the masked values;
+    // an extended frame keeps its EFF flag even if the identifier is small)
+    Avtp_Can_SetField(pdu, AVTP_CAN_FIELD_RTR, !!(can_id & CAN_RTR_FLAG));
+    if (can_id & CAN_EFF_FLAG) {
+        Avtp_Can_SetField(pdu, AVTP_CAN_FIELD_EFF, 1U);
+    }
+
+    if (can_variant == AVTP_CAN_FD) {
+        Avtp_Can_SetField(pdu, AVTP_CAN_FIELD_BRS, !!(frame.fd.flags & CANFD_BRS));
+        Avtp_Can_SetField(pdu, AVTP_CAN_FIELD_ESI, !!(frame.fd.flags & CANFD_ESI));
+    }
 
     return Avtp_Can_GetAcfMsgLength(pdu)*4;
 }
